@@ -50,6 +50,10 @@ pub fn confirm(w: &Value) -> Value {
         }
         #[cfg(feature = "physics")]
         "c09_pad" => crate::phys::confirm_pad(w),
+        #[cfg(feature = "physics")]
+        "c13_full_ring" => crate::phys::confirm_full_ring(w),
+        #[cfg(feature = "physics")]
+        "event" => crate::phys::confirm_event(w),
         "name" => crate::tables::confirm_name(w),
         "chunk" => {
             let b = hex(w["bytes"].as_str().unwrap_or(""));
@@ -88,6 +92,12 @@ pub fn run(name: &str, _seed: u64, tier: &str) -> Value {
         "c07_stream" => native::c07_stream(tier),
         "c04_enum" => native::c04_enum(tier),
         "c08_tables" => native::c08_tables(tier),
+        #[cfg(feature = "physics")]
+        "c13_sym" => crate::phys::c13_sym(tier),
+        #[cfg(feature = "physics")]
+        "c09_event" => crate::phys::c09_event(tier),
+        #[cfg(feature = "physics")]
+        "c10_table" => crate::phys::c10_table(tier),
         "c02_table" => crate::tables::c02_table(tier),
         "c03_table" => crate::tables::c03_table(tier),
         "c05_table" => crate::tables::c05_table(tier),
